@@ -199,10 +199,48 @@ func (c ColMap[K, V]) Prepare() error {
 	return nil
 }
 
+// cutMapTypes splits "K, V" at the comma between the key and the value type.
+//
+// Both types can have parameters of their own, e.g. Enum8('a' = 1, 'b' = 2)
+// or DateTime64(3, 'UTC'), so commas inside parentheses or quotes are skipped.
+func cutMapTypes(s string) (key, value string, ok bool) {
+	var (
+		depth  int
+		quoted bool
+		at     = -1
+	)
+	for i := 0; i < len(s); i++ {
+		switch ch := s[i]; {
+		case quoted:
+			if ch == '\\' {
+				i++ // escaped character
+			} else if ch == '\'' {
+				quoted = false
+			}
+		case ch == '\'':
+			quoted = true
+		case ch == '(':
+			depth++
+		case ch == ')':
+			depth--
+		case ch == ',' && depth == 0:
+			if at >= 0 {
+				// More than two types.
+				return "", "", false
+			}
+			at = i
+		}
+	}
+	if at < 0 || depth != 0 || quoted {
+		return "", "", false
+	}
+	return s[:at], s[at+1:], true
+}
+
 // Infer ensures Inferable column propagation.
 func (c *ColMap[K, V]) Infer(t ColumnType) error {
-	keytype, valtype, hascomma := strings.Cut(string(t.Elem()), ",")
-	if !hascomma || strings.ContainsRune(valtype, ',') {
+	keytype, valtype, ok := cutMapTypes(string(t.Elem()))
+	if !ok {
 		return errors.New("invalid map type")
 	}
 	if v, ok := c.Keys.(Inferable); ok {
